@@ -98,7 +98,33 @@ func (h Hit) WrapMismatch() string {
 }
 
 // Sink receives the hits of the handlers of one router.
-type Sink struct{ Hits []Hit }
+type Sink struct {
+	Hits []Hit
+	// F, when set (rt.New sets it), makes every recording handler first look up a neighbour of its own request through the
+	// router (same method and host, the path with one more byte): handlers may call Lookup, and whatever that nested
+	// lookup does with pooled contexts must leave the handler's own context alone.
+	F  *fox.Router
+	nw fox.ResponseWriter
+}
+
+func (s *Sink) nested(c fox.Context) {
+	if s.F == nil {
+		return
+	}
+	r := c.Request()
+	u := *r.URL
+	u.Path += "x"
+	if u.RawPath != "" {
+		u.RawPath += "x"
+	}
+	req := &http.Request{Method: r.Method, Host: r.Host, URL: &u, Header: http.Header{}, Proto: "HTTP/1.1", ProtoMajor: 1, ProtoMinor: 1, RemoteAddr: r.RemoteAddr}
+	if s.nw == nil {
+		s.nw = Writer(&NopWriter{H: http.Header{}}, req)
+	}
+	if rte, cc, _ := s.F.Lookup(s.nw, req); rte != nil {
+		cc.Close()
+	}
+}
 
 func (s *Sink) reset() { s.Hits = s.Hits[:0] }
 
@@ -117,24 +143,29 @@ type Router struct {
 	Sink   *Sink
 	Routes []RouteSpec // accepted registrations, in order
 	G      Global
+	// Preset, when set, is copied into the response header before ServeHTTP runs: what an outer net/http middleware left there.
+	Preset http.Header
 }
 
 // GlobalOptions translates Global into fox options, installing recording special handlers.
 func GlobalOptions(g Global, sink *Sink) []fox.GlobalOption {
 	opts := []fox.GlobalOption{
 		fox.WithNoRouteHandler(func(c fox.Context) {
+			sink.nested(c)
 			sink.Hits = append(sink.Hits, Hit{Kind: "noroute", Pattern: c.Pattern(), Params: Collect(c), Scope: c.Scope(), RouteNil: c.Route() == nil, CloneWithDiff: cloneWithDiff(c)})
 			c.Writer().WriteHeader(http.StatusNotFound)
 		}),
 	}
 	if g.NoMethod {
 		opts = append(opts, fox.WithNoMethodHandler(func(c fox.Context) {
+			sink.nested(c)
 			sink.Hits = append(sink.Hits, Hit{Kind: "nomethod", Pattern: c.Pattern(), Params: Collect(c), Scope: c.Scope(), RouteNil: c.Route() == nil, CloneWithDiff: cloneWithDiff(c)})
 			c.Writer().WriteHeader(http.StatusMethodNotAllowed)
 		}))
 	}
 	if g.AutoOptions {
 		opts = append(opts, fox.WithOptionsHandler(func(c fox.Context) {
+			sink.nested(c)
 			sink.Hits = append(sink.Hits, Hit{Kind: "options", Pattern: c.Pattern(), Params: Collect(c), Scope: c.Scope(), RouteNil: c.Route() == nil, CloneWithDiff: cloneWithDiff(c)})
 			c.Writer().WriteHeader(http.StatusOK)
 		}))
@@ -148,6 +179,7 @@ func GlobalOptions(g Global, sink *Sink) []fox.GlobalOption {
 	// observe the redirect handler without changing it
 	opts = append(opts, fox.WithMiddlewareFor(fox.RedirectHandler, func(next fox.HandlerFunc) fox.HandlerFunc {
 		return func(c fox.Context) {
+			sink.nested(c)
 			sink.Hits = append(sink.Hits, Hit{Kind: "redirect", Pattern: c.Pattern(), Params: Collect(c), Scope: c.Scope(), RouteNil: c.Route() == nil, CloneWithDiff: cloneWithDiff(c)})
 			next(c)
 		}
@@ -185,6 +217,7 @@ func EffectiveTS(g Global, r RouteSpec) int {
 // Handler returns the recording route handler for a pattern.
 func (s *Sink) Handler(pattern string) fox.HandlerFunc {
 	return func(c fox.Context) {
+		s.nested(c)
 		hit := Hit{Kind: "route", Pattern: c.Pattern(), Params: Collect(c), Scope: c.Scope(), RouteNil: c.Route() == nil, CloneWithDiff: cloneWithDiff(c)}
 		fox.WrapF(func(_ http.ResponseWriter, r *http.Request) {
 			for _, p := range fox.ParamsFromContext(r.Context()) {
@@ -210,10 +243,32 @@ func New(g Global, specs []RouteSpec) (*Router, error) {
 	if err != nil {
 		return nil, err
 	}
+	sink.F = f
 	r := &Router{F: f, Sink: sink, G: g}
 	for _, s := range specs {
 		if _, err := f.Handle(s.Method, s.Pattern, sink.Handler(s.Pattern), RouteOptions(s.TS)...); err == nil {
 			r.Routes = append(r.Routes, s)
+		}
+	}
+	return r, nil
+}
+
+// NewDetour is New followed by a detour through other route sets: every detour spec that the router accepts is registered
+// after the specs and deleted again before the router is returned, so the registered set is the one New builds.
+func NewDetour(g Global, specs, detour []RouteSpec) (*Router, error) {
+	r, err := New(g, specs)
+	if err != nil {
+		return nil, err
+	}
+	var added []RouteSpec
+	for _, s := range detour {
+		if _, err := r.F.Handle(s.Method, s.Pattern, r.Sink.Handler(s.Pattern), RouteOptions(s.TS)...); err == nil {
+			added = append(added, s)
+		}
+	}
+	for i := len(added) - 1; i >= 0; i-- {
+		if _, err := r.F.Delete(added[i].Method, added[i].Pattern); err != nil {
+			return nil, fmt.Errorf("detour route %s %s was registered but Delete returned %v", added[i].Method, added[i].Pattern, err)
 		}
 	}
 	return r, nil
@@ -363,6 +418,9 @@ func (w *recWriter) Write(b []byte) (int, error) {
 func (r *Router) Serve(req *http.Request) Served {
 	r.Sink.reset()
 	w := &recWriter{h: http.Header{}}
+	for k, vs := range r.Preset {
+		w.h[k] = append([]string(nil), vs...)
+	}
 	r.F.ServeHTTP(w, req)
 	hits := append([]Hit(nil), r.Sink.Hits...)
 	return Served{Code: w.code, Header: w.h, Hits: hits, Body: w.body.String()}
